@@ -569,6 +569,27 @@ class Machine:
             return [r]
         if t == "snapp":
             return tokens(tree(p[op[1]], prune=True))
+        if t == "clone":
+            import pickle
+            src = p[op[1]]
+            before = snap(src)
+            try:
+                c = pickle.loads(pickle.dumps(src))
+            except Exception as e:  # noqa: BLE001
+                self.exc.append(exc_class(e))
+                p.append(hg.Count())
+                return [1]
+            if not hasattr(self, "clonelog"):
+                self.clonelog = []
+            mine, others = [], []
+            idseq(c, mine)
+            for h in p:
+                idseq(h, others)
+            shared = {x[1] for x in mine} & {x[1] for x in others}
+            self.clonelog.append({"original_unchanged": snap(src) == before, "shares_objects": bool(shared),
+                                  "type_same": type(c) is type(src)})
+            p.append(c)
+            return [0] + snap(c)
         if t == "eq":
             a, b = p[op[1]], p[op[2]]
 
@@ -680,7 +701,8 @@ def qsig(h):
 
 def sparse_children(h):
     if h.name in ("SparselyBin", "Categorize"):
-        return [v for _, v in sorted(h.__dict__["bins"].items(), key=lambda kv: key_sort(kv[0]))]
+        return [v for _, v in sorted(((_pykey(k), v) for k, v in h.__dict__["bins"].items()),
+                                     key=lambda kv: key_sort(kv[0]))]
     return []
 
 
